@@ -74,7 +74,10 @@ Accepts(s) == Value(s, 1, 0) = Len(s) + 1
 
 (* ---- value trees ---- *)
 Leaves == {"undefined", "true", "false", "i0", "im1", "imax", "u1", "umax", "f1_5", "f0", "fnan", "finf", "ca", "s_empty", "s_a",
-           "s_html", "s_badutf8", "s_u2028", "b_empty", "b_ab", "function", "error", "a_empty", "m_empty"}
+           "s_html", "s_badutf8", "s_u2028", "b_empty", "b_ab", "function", "error", "a_empty", "m_empty",
+           \* sizes beyond the encoder's internal buffers / streaming thresholds: 770 and 4097 bytes (not multiples of 3),
+           \* a 6000-character string with characters to escape throughout, a 3000-element array, a 400-key map
+           "b_770", "b_4097", "s_6000", "a_3000", "m_400"}
 Unrepresentable == {"function", "error", "fnan", "finf"}
 Trees1 == [k : {"leaf"}, v : Leaves]
 Trees2 == Trees1 \cup [k : {"arr"}, a : Leaves, b : Leaves] \cup [k : {"arr1"}, a : Leaves]
